@@ -44,6 +44,10 @@ type C04Case struct {
 	// the since / until options the way the real one does, and the merged stream must hold every
 	// record from Start on (older ones of the same second may come along).
 	Start int64 `json:"start,omitempty"`
+	// IDLabel-1, when IDLabel > 0, is a container carrying the Docker label IDLabelKey
+	// (container.id, container_id, ...) whose value is the id of the next container.
+	IDLabel    int    `json:"id_label,omitempty"`
+	IDLabelKey string `json:"id_label_key,omitempty"`
 
 	raw [][]dl.Line // the containers' whole logs in window mode (Ctrs then holds what is expected)
 }
@@ -75,7 +79,13 @@ func c04Ctr(c C04Case, i int) fakedocker.Container {
 	if c.raw != nil {
 		lines = c.raw[i]
 	}
-	ctr := dl.Ctr(fmt.Sprintf("id%d", i), fmt.Sprintf("c%d", i), nil, lines)
+	var labels map[string]string
+	if c.IDLabel == i+1 && len(c.Ctrs) > 0 {
+		// a Docker label that names a container id - another container's, as a log shipper's
+		// side-car would carry it: a label, not the id the log is asked for
+		labels = map[string]string{c.IDLabelKey: fmt.Sprintf("id%d", (i+1)%len(c.Ctrs))}
+	}
+	ctr := dl.Ctr(fmt.Sprintf("id%d", i), fmt.Sprintf("c%d", i), labels, lines)
 	ctr.Frag = c.Frag
 	if c.Broken == i+1 {
 		switch c.BrokenKind {
@@ -136,7 +146,7 @@ func c04Solo(c C04Case, i int) ([]c04Out, error) {
 		r   logstorage.Record
 	)
 	for it.Next(&r) {
-		id, _ := r.ResourceAttrs.AsMap().Get("container_id")
+		id, _ := r.ResourceAttrs.AsMap().Get("container_name")
 		out = append(out, c04Out{ctr: id.AsString(), ts: int64(r.Timestamp), body: r.Body, attrs: c04Attrs(r)})
 	}
 	err = it.Err()
@@ -184,7 +194,7 @@ func c04Run(c C04Case, order []int) ([]c04Out, error, fakedocker.Report) {
 		r   logstorage.Record
 	)
 	for it.Next(&r) {
-		id, _ := r.ResourceAttrs.AsMap().Get("container_id")
+		id, _ := r.ResourceAttrs.AsMap().Get("container_name")
 		out = append(out, c04Out{ctr: id.AsString(), ts: int64(r.Timestamp), body: r.Body, attrs: c04Attrs(r)})
 		if len(out) > 100000 {
 			break
@@ -211,7 +221,7 @@ func c04History(c C04Case) *evid.Violation {
 		for _, idx := range sel {
 			names = append(names, fmt.Sprintf("c%d", idx))
 			for _, l := range c.Ctrs[idx] {
-				want[fmt.Sprintf("id%d|%d|%s", idx, l.TS, l.Msg)]++
+				want[fmt.Sprintf("c%d|%d|%s", idx, l.TS, l.Msg)]++
 			}
 		}
 		re := "^(?:" + strings.Join(names, "|") + ")$"
@@ -224,7 +234,7 @@ func c04History(c C04Case) *evid.Violation {
 		var rec logstorage.Record
 		var prev int64
 		for it.Next(&rec) {
-			id, _ := rec.ResourceAttrs.AsMap().Get("container_id")
+			id, _ := rec.ResourceAttrs.AsMap().Get("container_name")
 			got[fmt.Sprintf("%s|%d|%s", id.AsString(), int64(rec.Timestamp), rec.Body)]++
 			_ = prev
 		}
@@ -353,8 +363,8 @@ func c04Check(c C04Case) (r evid.Result) {
 		next := make([]int, n)
 		for k, o := range out {
 			var idx int
-			if _, err := fmt.Sscanf(o.ctr, "id%d", &idx); err != nil || idx < 0 || idx >= n {
-				r.Violation = evid.Viol("C04/origin", "%s: record %d has container_id %q", what, k, o.ctr)
+			if _, err := fmt.Sscanf(o.ctr, "c%d", &idx); err != nil || idx < 0 || idx >= n {
+				r.Violation = evid.Viol("C04/origin", "%s: record %d has container_name %q", what, k, o.ctr)
 				return r
 			}
 			if next[idx] >= len(c.Ctrs[idx]) {
@@ -391,7 +401,7 @@ func c04Check(c C04Case) (r evid.Result) {
 			}
 			for k, o := range out {
 				var idx int
-				fmt.Sscanf(o.ctr, "id%d", &idx)
+				fmt.Sscanf(o.ctr, "c%d", &idx)
 				if pos[idx] < len(solo[idx]) && solo[idx][pos[idx]] != o {
 					r.Violation = evid.Viol("C04/record-differs-from-solo-read", "%s: merged record %d %+v, the same record read from container %d alone is %+v", what, k, o, idx, solo[idx][pos[idx]])
 					return r
@@ -486,6 +496,10 @@ func c04Gen(t *rapid.T) C04Case {
 				c.Aliases[i] = append(c.Aliases[i], fmt.Sprintf("/link%d/c%d", k, i))
 			}
 		}
+	}
+	if n >= 2 && rapid.IntRange(0, 7).Draw(t, "id-label") == 0 {
+		c.IDLabel = rapid.IntRange(1, n).Draw(t, "id-label-container")
+		c.IDLabelKey = rapid.SampledFrom([]string{"container.id", "container_id", "container-id", "container/id"}).Draw(t, "id-label-key")
 	}
 	if n >= 1 && rapid.IntRange(0, 7).Draw(t, "one-undecodable-stream") == 0 {
 		c.Broken = rapid.IntRange(1, n).Draw(t, "broken")
